@@ -496,6 +496,22 @@ func (ev *Ev) doLoop(args []*V, env *Env, star bool) []*V {
 	}
 	if test.K != KList {
 		ev.note(kind + "-test-atom")
+		// "tight": nothing in the loop is a list form either, so an
+		// evaluator that never ends such a loop never reaches a function call
+		tight := true
+		for _, b := range body {
+			if b.K == KList || b.K == KQuote {
+				tight = false
+			}
+		}
+		for _, dv := range vars {
+			if dv.step != nil && (dv.step.K == KList || dv.step.K == KQuote) {
+				tight = false
+			}
+		}
+		if tight {
+			ev.note(kind + "-test-atom-tight")
+		}
 	}
 	iter := 0
 	for {
